@@ -6,6 +6,9 @@ CONSTANTS
     Design = "temp"
     Policy = "trust"
     RenameAt = "closed"
+    Recover = FALSE
+    Forwards = TRUE
+    MaxDrop = 0
     LossyNames = FALSE
     Memo = TRUE
     MaxClear = 1
